@@ -67,6 +67,7 @@ theorem maybeAccept_osame {pol : Policy} {c : Chain} {s : Pool} {t : TxAbs} {isN
     OrphSame (maybeAccept pol c s t isNew rl rdo).1 s := maybeAccept_orphans
 
 theorem markStale_osame (s : Pool) : OrphSame (markStale s) s := ⟨rfl, rfl⟩
+theorem staleSpenders_osame (b : Block) (s : Pool) : OrphSame (staleSpenders b s) s := ⟨rfl, rfl⟩
 
 /-! ### orphan removals -/
 
@@ -262,7 +263,8 @@ theorem step_oia (pol : Policy) (st : State) (op : Op) (h : OIAx [] st.pool) : O
     · exact h
     · simp only
       apply foldl_inv (OIAx []) _ _ _ _
-      · split
+      · apply oiax_of_same (staleSpenders_osame _ _)
+        split
         · exact oiax_of_same (markStale_osame _) h
         · exact h
       · intro b' a hb; exact connectTx_oia pol _ prio b' a hb
